@@ -381,7 +381,7 @@ func (db *SingleBucketBackend) PutObject(
 ) (result gofakes3.PutObjectResult, err error) {
 
 	if !db.validKey(objectName) {
-		return result, errInvalidObjectName
+		return result, errInvalidObjectName()
 	}
 
 	if bucketName != db.name {
